@@ -41,6 +41,46 @@ def prims(art):
     return [(n, c, r, where(art, p)) for n, p, c, r in S.walk(art.outer) if n["t"] == "Prim"]
 
 
+def offered_params(cfg, crate, rep):
+    """DEFAULT values must be omitted: the only parameterised AlgorithmIdentifier rcgen can write is RSASSA-PSS, whose
+    writer spells out saltLength.  An algorithm whose saltLength is the DEFAULT (20) must therefore not be obtainable
+    (SignatureAlgorithm::iter / from_oid), or its identifier would carry an encoded DEFAULT."""
+    from interp import Interp as _I, ArrayV, Def as _Def
+    I = _I(crate)
+    # the table behind SignatureAlgorithm::iter(): whichever constant array of algorithm statics its result ranges over
+    t0 = None
+    outv = I.run_fn("sign_algo::SignatureAlgorithm::iter")["value"]
+    for r_ in sorted(roots(outv)):
+        if r_.startswith("def:"):
+            cv = I.const_value(r_[4:])
+            if cv is not None and isinstance(core(cv), ArrayV):
+                t0 = core(cv)
+    if not isinstance(t0, ArrayV):
+        rep.fail("C04.params", "%s|offered-table" % cfg, "the table of offered algorithms (SignatureAlgorithm::iter::ALGORITHMS) is not a literal array", found=t0.r()[:80] if t0 is not None else None)
+        return
+    bad = []
+    n = 0
+    for it in t0.items:
+        d = core(it)
+        if not isinstance(d, _Def):
+            bad.append(d.r()[:60])
+            continue
+        n += 1
+        sv = core(I.const_value(d.path))
+        pv = core(sv.fields.get("params")) if isinstance(sv, StructV) else None
+        var = (pv.variant or "").split("::")[-1] if isinstance(pv, StructV) else None
+        if var in ("None", "Null"):
+            continue
+        if var == "RsaPss":
+            salt = I.concrete(pv.fields.get("salt_length"))
+            if isinstance(salt, int) and salt != 20:
+                continue
+            bad.append("%s: RSASSA-PSS with saltLength %s (the DEFAULT) would be written explicitly" % (d.path.split("::")[-1], salt))
+        else:
+            bad.append("%s: parameters %s" % (d.path.split("::")[-1], var))
+    rep.ob("C04.params", "%s|offered-algorithms-encode-canonically" % cfg, not bad and n >= 6, "every obtainable signature algorithm has absent or NULL parameters (or non-default PSS parameters): no AlgorithmIdentifier spells out a DEFAULT", found=bad or "%d algorithms" % n)
+
+
 def run(ctx):
     rep = ctx.rep
     for cfg in (CONFIGS_QUICK if ctx.tier == "quick" else CONFIGS_THOROUGH):
@@ -54,6 +94,7 @@ def run(ctx):
             # wrapper -> writer pairing
             import c13
             common.borrow_rules(rep, lambda: (c13.alpha(cfg, crate, rep), c13.sink(cfg, crate, rep)), "C13.", "C04.strings")
+        offered_params(cfg, crate, rep)
         arts = [common.artefact(crate, f) for f in (CERT_FN, CSR_FN, CRL_FN)]
         rep.fn(CERT_FN, CSR_FN, CRL_FN, SIGN_DER, "key_pair::serialize_public_key_der")
         nb = nbits = nset = nint = nraw = 0
